@@ -13,24 +13,11 @@ Lemma all_sinks_pass : forallb sink_passes sinks = true.
 Proof. vm_compute. reflexivity. Qed.
 
 Lemma all_sinks_safe : forall k, In k sinks -> memN (sk_id k) known_failing = false ->
-  forall s, xml_str s = true -> (sk_esc k = NotText -> plain s = true) ->
-  lex_slot (sk_ctx k) (apply_esc (sk_esc k) s) = Got (norm (sk_ctx k) s).
+  forall s, xml_str s = true -> (sk_esc k = NotText -> plain s = true /\ no_ws_ctl s = true) ->
+  lex_slot (sk_ctx k) (apply_esc (sk_esc k) s) = Got s.
 Proof.
   intros k Hin Hk s Hx Hp. pose proof (proj1 (forallb_forall _ _) all_sinks_pass k Hin) as H.
   unfold sink_passes in H. rewrite Hk in H. simpl in H. apply sink_ok_sound; auto.
-Qed.
-
-(** the same for values that the parser normalisation leaves alone: exactly the caller's string *)
-Lemma all_sinks_exact : forall k, In k sinks -> memN (sk_id k) known_failing = false ->
-  forall s, xml_str s = true -> no_ws_ctl s = true -> (sk_esc k = NotText -> plain s = true) ->
-  lex_slot (sk_ctx k) (apply_esc (sk_esc k) s) = Got s.
-Proof.
-  intros k Hin Hk s Hx Hw Hp. rewrite (all_sinks_safe k Hin Hk s Hx Hp). f_equal.
-  destruct (sk_ctx k).
-  - apply norm_attr_id; auto.
-  - apply norm_text_id. unfold no_ws_ctl in Hw. unfold no_cr. rewrite forallb_forall in *.
-    intros c Hc. specialize (Hw c Hc). apply negb_true_iff in Hw. apply orb_false_iff in Hw as [_ Hw].
-    rewrite Hw. reflexivity.
 Qed.
 
 (** recorded findings are real: every known-failing sink is rejected by the table and its
@@ -43,12 +30,12 @@ Proof. vm_compute. reflexivity. Qed.
 
 Lemma known_failing_refuted : forall k, In k sinks -> memN (sk_id k) known_failing = true ->
   xml_str (sink_witness k) = true /\
-  lex_slot (sk_ctx k) (apply_esc (sk_esc k) (sink_witness k)) <> Got (norm (sk_ctx k) (sink_witness k)).
+  lex_slot (sk_ctx k) (apply_esc (sk_esc k) (sink_witness k)) <> Got (sink_witness k).
 Proof.
   intros k Hin Hk. pose proof (proj1 (forallb_forall _ _) all_known_real k Hin) as H.
   unfold known_real in H. rewrite Hk in H. simpl in H. apply andb_true_iff in H as [Hg Hb].
   apply negb_true_iff in Hg. unfold sink_good in Hg.
-  destruct (sink_ok_complete _ _ Hg) as [Hx [_ Hne]]. split; [exact Hx|exact Hne].
+  exact (sink_ok_complete _ _ Hg).
 Qed.
 
 (** ids are the positions in the list (so that the meta file and the list agree) *)
